@@ -1,7 +1,7 @@
 SPECIFICATION Spec
 CONSTANTS
   MaxCells = 5
-  MaxLen = 7
+  MaxLen = 6
   DataVals = {0, 1, 2}
   Recons = {"extrapol1", "extrapol2", "k0", "k1/3", "k1", "muscl_minmod", "muscl_vanalbada", "muscl_vanleer", "muscl_superbee"}
   CheckKinds = {"cons"}
